@@ -205,6 +205,7 @@ func Main(m *testing.M) {
 	}
 	code := m.Run()
 	Flush()
+	CleanScratch()
 	os.Exit(code)
 }
 
